@@ -182,13 +182,37 @@ def extract():
     return {'consts': consts, 'skeletons': shas}
 
 
-def render(consts):
+def metal_flags():
+    """(atomic number, `is_forming_single_bonds or isinstance(_, GroupXVIII)`) for every Element subclass — what AnyMetal.__eq__ tests"""
+    from chython.periodictable import Element
+    from chython.periodictable.base.groups import GroupXVIII
+    rows = []
+    for cls in Element.__subclasses__():
+        z = cls.atomic_number.fget(None)
+        single = None
+        for k in cls.__mro__:
+            if isinstance(k.__dict__.get('is_forming_single_bonds'), property):
+                single = k.__dict__['is_forming_single_bonds'].fget(None)
+                break
+        if single is None:
+            raise TranslatorError(f'{cls.__name__}: is_forming_single_bonds is not a property')
+        rows.append((z, bool(single) or issubclass(cls, GroupXVIII)))
+    rows.sort()
+    if [z for z, _ in rows] != list(range(1, 119)):
+        raise TranslatorError(f'Element subclasses do not cover 1..118: {[z for z, _ in rows][:5]}…')
+    return rows
+
+
+def render(consts, flags=None):
     lines = ['-- GENERATED by harness/gen/gen_bitlayout.py from /repo/chython/algorithms/isomorphism.py',
              '-- (`_cython_compiled_structure`: names s…, `_cython_compiled_query`: names q… (atom masks) and c… (closure bond masks)).',
              '-- Do not edit: rewritten on every check run.',
              'namespace ChythonModel.Gen.Bits', '']
     for nm, v in consts:
         lines.append(f'def {nm} : Nat := {hex(v) if v > 1000 else v}')
+    if flags is not None:
+        lines += ['', '/-- (atomic number, `other.is_forming_single_bonds or isinstance(other, GroupXVIII)`): the elements `AnyMetal.__eq__` rejects -/',
+                  'def notMetalFlags : List (Nat × Bool) := [' + ', '.join(f'({z}, {str(b).lower()})' for z, b in flags) + ']']
     lines += ['', 'end ChythonModel.Gen.Bits', '']
     return '\n'.join(lines)
 
@@ -202,7 +226,7 @@ def generate():
         info = extract()
     except SkeletonChanged as e:
         return path, {'shape_changed': str(e)}
-    write_if_changed(path, render(info['consts']))
+    write_if_changed(path, render(info['consts'], metal_flags()))
     return path, info
 
 
